@@ -7,9 +7,10 @@
    is both patched and instrumented, the instrumenter has already consumed the patched copy.
 usage: mkoverlay.py [--out-dir build/rw-<id>] [extra-map.json ...]"""
 import json, os, sys
-root = '/verif/overlay'
+ROOT = os.environ.get('VERIF_ROOT', '/verif')
+root = ROOT + '/overlay'
 args = sys.argv[1:]
-outdir = '/verif/build/rw'
+outdir = ROOT + '/build/rw'
 if args and args[0] == '--out-dir':
     outdir = args[1]; args = args[2:]
 rep = {}
@@ -20,11 +21,11 @@ for d, _, fs in os.walk(root):
             rel = os.path.relpath(src, root)
             rep['/repo/' + rel] = src
 # the shim packages are virtual directories inside the repo module
-for d, _, fs in os.walk('/verif/shim'):
+for d, _, fs in os.walk(ROOT + '/shim'):
     for f in fs:
         if f.endswith('.go'):
             src = os.path.join(d, f)
-            rep['/repo/zzverif/' + os.path.relpath(src, '/verif/shim')] = src
+            rep['/repo/zzverif/' + os.path.relpath(src, ROOT + '/shim')] = src
 patches = json.load(open(os.path.join(root, 'PATCHES.json')))
 os.makedirs(outdir, exist_ok=True)
 for p in patches:
